@@ -357,7 +357,7 @@ def check(src, rep):
     rep.assumptions = ["ECMA-48 SGR subset as encoded in sa/sgr.py", "re.match semantics (leftmost, lazy/greedy quantifiers)"]
     rep.trusted_base = ["CPython ast and re._parser modules", "sa/consteval.py", "sa/absint.py", "sa/objinterp.py",
                         "sa/regexast.py (NFA/DFA)", "sa/sgr.py"]
-    it = new_interp(src)
+    it = new_interp(src, check_views=True)
     fold = it.folder
     counts = {}
     names = rep.guard(rule_r4, src, rep, fold, counts)
